@@ -77,5 +77,19 @@ def install():
 
     oi.FormatValueInterceptor.trace_op = trace_op
 
+    # Never "short-circuit" (replace by a fresh symbolic return value) calls into
+    # contracted library functions such as hash(): calling into the real function is
+    # always exact, and the extra parallel forks multiply the path count (406 paths
+    # instead of 64 for the 4-node DAG harness).
+    import crosshair.core as core
+    orig_cs = core.consider_shortcircuit
+
+    def consider_shortcircuit(fn, sig, bound, subconditions, allow_interpretation):
+        if allow_interpretation:
+            return None
+        return orig_cs(fn, sig, bound, subconditions, allow_interpretation)
+
+    core.consider_shortcircuit = consider_shortcircuit
+
 
 install()
